@@ -519,6 +519,7 @@ class Engine:
                 item = m.item(i, st)
                 bv = [i]
             st.guards.append(dom)
+            self.quant_depth = getattr(self, 'quant_depth', 0) + 1
             try:
                 self.bind_target(g.target, item, st)
                 conds = [self.truth(self.eval(c, st), st) for c in g.ifs]
@@ -531,6 +532,7 @@ class Engine:
                         st.guards.pop()
             finally:
                 st.guards.pop()
+                self.quant_depth -= 1
         finally:
             st.env = saved
         x = z3.Const(fresh_name('sx'), sort_of(elt.ty))
